@@ -177,3 +177,48 @@ func VH_C03_SNPs_e2e() {
 	vAssert("C03.e2e.output-equals-definition", string(w.buf) == exp)
 }
 
+
+// VH_C03_wide: a 12-column alignment (positions >= 10) that equals the reference except at two columns placed
+// anywhere, whole SNPs() end to end.
+func VH_C03_wide() {
+	W := 12
+	hard := vBool("hardGaps")
+	BS := vBaseSetTable(hard)
+	UP := vUpperTable()
+	ref := []byte("ACGTACGTACGT")
+	p1 := vChoice("p1", W)
+	p2 := vChoice("p2", W)
+	vAssume(p1 < p2)
+	ref[p1] = vNuc("r1", sigma34)
+	q := make([][]byte, 2)
+	var aln []byte
+	for n := 0; n < 2; n++ {
+		q[n] = append([]byte{}, ref...)
+		q[n][p1] = vNuc(vName("q", n, 1), sigma34)
+		q[n][p2] = vNuc(vName("q", n, 2), sigma34)
+		aln = append(aln, []byte(">s"+strconv.Itoa(n)+"\n")...)
+		aln = append(aln, q[n]...)
+		aln = append(aln, '\n')
+	}
+	refFile := append([]byte(">ref\n"), ref...)
+	refFile = append(refFile, '\n')
+	w := &vCapture{}
+	err := SNPs(bytes.NewReader(refFile), bytes.NewReader(aln), hard, false, 0, w)
+	vAssert("C03.wide.no-error", err == nil)
+	exp := "query,SNPs\n"
+	for n := 0; n < 2; n++ {
+		exp += "s" + strconv.Itoa(n) + ","
+		first := true
+		for i := 0; i < W; i++ {
+			if BS[ref[i]]&BS[q[n][i]] == 0 {
+				if !first {
+					exp += "|"
+				}
+				first = false
+				exp += string([]byte{UP[ref[i]]}) + strconv.Itoa(i+1) + string([]byte{UP[q[n][i]]})
+			}
+		}
+		exp += "\n"
+	}
+	vAssert("C03.wide.output-equals-definition", string(w.buf) == exp)
+}
